@@ -147,4 +147,138 @@ theorem skel_OIDCProvider_Redeem_ok : skel_OIDCProvider_Redeem = ([
   "return p.createSession(ctx, token, false)",
   "p.createSession"] : List String) := rfl
 
+theorem providerValidate_ok : providerValidate = ([
+  "## providers/azure.go AzureProvider.ValidateSession",
+  "return validateToken(ctx, p, s.AccessToken, makeAzureHeader(s.Acces",
+  "validateToken",
+  "## providers/digitalocean.go DigitalOceanProvider.ValidateSession",
+  "return validateToken(ctx, p, s.AccessToken, makeOIDCHeader(s.Access",
+  "validateToken",
+  "makeOIDCHeader",
+  "## providers/facebook.go FacebookProvider.ValidateSession",
+  "return validateToken(ctx, p, s.AccessToken, makeOIDCHeader(s.Access",
+  "validateToken",
+  "makeOIDCHeader",
+  "## providers/github.go GitHubProvider.ValidateSession",
+  "return validateToken(ctx, p, s.AccessToken, makeGitHubHeader(s.Acce",
+  "validateToken",
+  "## providers/keycloak.go KeycloakProvider.ValidateSession",
+  "return validateToken(ctx, p, s.AccessToken, makeOIDCHeader(s.Access",
+  "validateToken",
+  "makeOIDCHeader",
+  "## providers/linkedin.go LinkedInProvider.ValidateSession",
+  "return validateToken(ctx, p, s.AccessToken, makeLinkedInHeader(s.Ac",
+  "validateToken",
+  "## providers/logingov.go LoginGovProvider.ValidateSession",
+  "return validateToken(ctx, p, s.AccessToken, makeOIDCHeader(s.Access",
+  "validateToken",
+  "makeOIDCHeader",
+  "## providers/ms_entra_id.go MicrosoftEntraIDProvider.ValidateSession",
+  "p.getTenantFromToken",
+  "if err != nil",
+  "logger.Errorf",
+  "return false",
+  "if len(p.multiTenantAllowedTenants) > 0",
+  "p.checkTenantMatchesTenantList",
+  "if !tenantAllowed",
+  "return false",
+  "return p.OIDCProvider.ValidateSession(ctx, session)",
+  "p.OIDCProvider.ValidateSession",
+  "## providers/nextcloud.go NextcloudProvider.ValidateSession",
+  "return validateToken(ctx, p, s.AccessToken, makeOIDCHeader(s.Access",
+  "validateToken",
+  "makeOIDCHeader",
+  "## providers/oidc.go OIDCProvider.ValidateSession",
+  "p.Verifier.Verify",
+  "if err != nil",
+  "logger.Errorf",
+  "return false",
+  "if p.SkipNonce",
+  "return true",
+  "p.checkNonce",
+  "if err != nil",
+  "logger.Errorf",
+  "return false",
+  "return true",
+  "## providers/provider_default.go ProviderData.ValidateSession",
+  "return validateToken(ctx, p, s.AccessToken, nil)",
+  "validateToken"] : List String) := rfl
+
+theorem providerLogin_ok : providerLogin = ([
+  "## providers/adfs.go ADFSProvider.GetLoginURL",
+  "if !p.SkipNonce",
+  "extraParams.Add",
+  "if p.skipScope",
+  "loginURL.Query",
+  "q.Del",
+  "q.Encode",
+  "return loginURL.String()",
+  "## providers/azure.go AzureProvider.GetLoginURL",
+  "if p.ProtectedResource != nil && p.ProtectedResource.String() != \"\" && !p.isV2Endpoint",
+  "extraParams.Add",
+  "return a.String()",
+  "## providers/logingov.go LoginGovProvider.GetLoginURL",
+  "if len(extraParams[\"acr_values\"]) == 0",
+  "extraParams.Add",
+  "extraParams.Add",
+  "return a.String()",
+  "## providers/oidc.go OIDCProvider.GetLoginURL",
+  "if !p.SkipNonce",
+  "extraParams.Add",
+  "return loginURL.String()",
+  "## providers/provider_default.go ProviderData.Authorize",
+  "if len(p.AllowedGroups) == 0",
+  "return true, nil",
+  "if ok",
+  "return true, nil",
+  "return false, nil",
+  "## providers/provider_default.go ProviderData.GetLoginURL",
+  "if p.AuthRequestResponseMode != \"\"",
+  "extraParams.Add",
+  "return loginURL.String()"] : List String) := rfl
+
+theorem skel_newProviderDataFromConfig_ok : skel_newProviderDataFromConfig = ([
+  "if err != nil",
+  "return nil, err",
+  "if needsVerifier",
+  "if err != nil",
+  "return nil, fmt.Errorf(\"error building OIDC ProviderVerifier: %v\", err)",
+  "fmt.Errorf",
+  "if pv.DiscoveryEnabled()",
+  "url.Parse",
+  "if err != nil",
+  "fmt.Errorf",
+  "if len(errs) > 0",
+  "return nil, k8serrors.NewAggregate(errs)",
+  "if len(p.SupportedCodeChallengeMethods) != 0 && p.CodeChallengeMethod == \"\"",
+  "if providerConfig.OIDCConfig.UserIDClaim == \"\"",
+  "if providerConfig.OIDCConfig.EmailClaim == options.OIDCEmailClaim && providerConfig.OIDCConfig.UserIDClaim != options.OIDCEmailClaim",
+  "p.setAllowedGroups",
+  "return p, nil"] : List String) := rfl
+
+theorem skel_parseCodeChallengeMethod_ok : skel_parseCodeChallengeMethod = ([
+  "case providerConfig.CodeChallengeMethod != \"\"",
+  "return providerConfig.CodeChallengeMethod",
+  "case ",
+  "return \"\""] : List String) := rfl
+
+theorem skel_ProviderData_LoginURLParams_ok : skel_ProviderData_LoginURLParams = ([
+  "if len(overrides) > 0",
+  "if ok",
+  "if re.MatchString(val)",
+  "re.MatchString",
+  "if len(actualValues) > 0",
+  "params.Del",
+  "return params"] : List String) := rfl
+
+theorem skel_ProviderData_GetLoginURL_ok : skel_ProviderData_GetLoginURL = ([
+  "if p.AuthRequestResponseMode != \"\"",
+  "extraParams.Add",
+  "return loginURL.String()"] : List String) := rfl
+
+theorem skel_OIDCProvider_GetLoginURL_ok : skel_OIDCProvider_GetLoginURL = ([
+  "if !p.SkipNonce",
+  "extraParams.Add",
+  "return loginURL.String()"] : List String) := rfl
+
 end O2P.Expect.C05
